@@ -369,6 +369,64 @@ def names_differing_only_in_case(chk):
         chk.coverage["traces_validated_against_impl"] += 8
 
 
+def dead_stdout_keeps_tasks_exclusive(chk):
+    """"--jobs bound, exclusive sequential tasks": two sequential experiments under a group, JOBS = 1, while Conductor's own
+    stdout is a pipe whose reader has exited (`cond run ... | head -1`) and block-buffered (PYTHONUNBUFFERED unset): whatever
+    becomes of Conductor's own messages, at no time may two task processes be alive.  Control: stdout to a file.  (Seed
+    C04/k: a flush of Conductor's stream was added after the task had been spawned; its failure was taken for a failed
+    launch, the running process was forgotten and the next task started beside it.)"""
+    import os
+    import subprocess
+    import implrun
+    from common import PY, SRC
+
+    for mode in ("file", "closed-pipe"):
+        root = implrun.make_project({"COND": ""})
+        log = os.path.join(root, "events.log")
+        probe = "echo S $COND_NAME >> %s; sleep 0.7; echo E $COND_NAME >> %s" % (log, log)
+        open(os.path.join(root, "COND"), "w").write('run_experiment(name="p1", run="%s")\nrun_experiment(name="p2", run="%s")\ngroup(name="both", deps=[":p1", ":p2"])\n' % (probe, probe))
+        env = dict(os.environ, PYTHONPATH=SRC)
+        env.pop("PYTHONUNBUFFERED", None)
+        if mode == "file":
+            with open(os.path.join(root, "stdout.txt"), "wb") as fh:
+                p = subprocess.Popen([PY, "-m", "conductor", "run", "//:both"], cwd=root, env=env, stdout=fh, stderr=subprocess.PIPE)
+                _o, err = p.communicate(timeout=60)
+        else:
+            rfd, wfd = os.pipe()
+            os.close(rfd)
+            p = subprocess.Popen([PY, "-m", "conductor", "run", "//:both"], cwd=root, env=env, stdout=wfd, stderr=subprocess.PIPE)
+            os.close(wfd)
+            try:
+                _o, err = p.communicate(timeout=60)
+            except subprocess.TimeoutExpired:
+                p.kill()
+                _o, err = p.communicate()
+        import time
+
+        time.sleep(1.0)            # a forgotten task may still be writing its end event
+        evs = [l.split() for l in open(log).read().splitlines()] if os.path.exists(log) else []
+        chk.coverage["evaluations"] += 1
+        chk.count("real", "dead stdout (%s)" % mode)
+        running, worst = set(), 0
+        for ev in evs:
+            if ev[0] == "S":
+                running.add(ev[1])
+                worst = max(worst, len(running))
+            else:
+                running.discard(ev[1])
+        msg = None
+        if worst > 1:
+            msg = "%d task processes were alive at once under JOBS=1 (events %r)" % (worst, evs)
+        elif mode == "file" and (p.returncode != 0 or sorted(e[1] for e in evs if e[0] == "S") != ["p1", "p2"]):
+            msg = "harness: the control run (stdout to a file) exited %s with events %r" % (p.returncode, evs)
+        if msg:
+            chk.violation("impl-violation", "two sequential experiments, Conductor's stdout %s: %s" % ("goes to a file" if mode == "file" else "is a pipe nobody reads", msg),
+                          {"input": {"scenario": "dead-stdout", "mode": mode}, "impl_observation": {"exit": p.returncode, "events": evs, "stderr": err[-300:].decode("utf-8", "replace")}, "oracle_verdict": msg},
+                          match_key={"real": "dead-stdout"}, size=3)
+        else:
+            chk.coverage["traces_validated_against_impl"] += 1
+
+
 def unlaunchable_tasks(chk):
     """a task that CANNOT BE LAUNCHED -- the operating system refuses the command line (an embedded NUL byte, a
     character that cannot be encoded for the operating system), or a combine task's output path is taken by a regular file -- is a failed task like
@@ -739,6 +797,7 @@ def run_prop(prop, tier, seed, replay=None, extra_oracles=(), extra_part=None, e
     if prop == "C04":
         real_slots(chk, 4 if tier == "quick" else 24)
         twin_names_slots(chk)
+        dead_stdout_keeps_tasks_exclusive(chk)
         from reaper_util import stopped_task
 
         for par in (False, True):     # a stopped task still occupies its slot / still excludes the others
